@@ -305,8 +305,19 @@ pub fn run_resp(case: &RespCase) -> RespOut {
         mask_ok: matches!(&case.reads, Reads::Drain(h) if is_text_drain(*h)),
     };
     let sent = catch_unwind(AssertUnwindSafe(|| {
-        attohttpc::RequestBuilder::new(method_of(&case.method), "http://verif.test/x")
-            .max_headers(case.max_headers)
+        // a request that carries content (one POST / PUT case in two): how the response is read does not depend on
+        // what the request was (seeds C04-seed9, C05-seed9)
+        let rb = attohttpc::RequestBuilder::new(method_of(&case.method), "http://verif.test/x");
+        let with_body = (case.method == "POST" || case.method == "PUT") && case.segs.len() % 2 == 1;
+        if with_body {
+            return rb
+                .text("request-content")
+                .max_headers(case.max_headers)
+                .allow_compression(case.segs.len() % 2 == 0)
+                .follow_redirects(false)
+                .send();
+        }
+        rb.max_headers(case.max_headers)
             // only announces Accept-Encoding; the response side must not depend on it
             .allow_compression(case.segs.len() % 2 == 0)
             .follow_redirects(false)
